@@ -23,3 +23,18 @@ Theorem C15_small_strings_ok :
   forallb (fun r => existsb (row_eqb r) smallTuplets) small_spec = true.
 Proof. exact small_table_ok. Qed.
 Print Assumptions C15_small_strings_ok.
+
+(** the whole pipeline over the model kernel at bit level: the byte arrays of all segments (all ones AND the unset masks of
+    the cross-off AND the end masks), zero-padded to a multiple of 8 bytes and decoded word by word
+    (littleendian 64-bit words, "for (; bits != 0; bits &= bits - 1) nextPrime(bits, low)", either variant of nextPrime),
+    yield exactly the primes of [start, stop] in ascending order - what print_primes / the iterator buffers receive *)
+From PS Require Import Model.Config Model.EratGeom Model.CrossOff Model.Decode Proofs.KernelTopP Proofs.DecodeTopP.
+Theorem C15_kernel_decode_spec : forall next l1 maxKB start stop fuelg fuel l result k,
+  (next = nextPrime_ctz \/ next = nextPrime_bruijn) ->
+  16 <= maxKB -> maxKB <= 8192 -> 7 <= start -> start <= stop -> stop <= MAX64 ->
+  segments fuelg l1 maxKB start stop = Some l ->
+  sieve_loop fuel eratSmallSteps stop (map to_kseg l) (primes_between 7 (N.sqrt stop)) [] = Some result ->
+  List.length (pad8 (run_bytes start stop result)) = (8 * k)%nat ->
+  decode_array k next (pad8 (run_bytes start stop result)) (a_segLow (initAlgorithms l1 maxKB start stop)) = primes_between start stop.
+Proof. exact kernel_decode_spec. Qed.
+Print Assumptions C15_kernel_decode_spec.
